@@ -197,6 +197,9 @@ pub fn operator_fields() -> Vec<BI> {
     add(list(Ty::Int), E::BForeach("e".into(), Box::new(li()), Box::new(bang("!add", vec![id("e"), int(1)]))));
     add(list(Ty::Int), E::BFilter("e".into(), Box::new(li()), Box::new(bang("!gt", vec![id("e"), int(1)]))));
     add(Ty::Int, E::BFoldl(Box::new(int(0)), Box::new(li()), "acc".into(), "e".into(), Box::new(bang("!add", vec![id("acc"), id("e")]))));
+    // the accumulator has the type of the start value, the element variable the list's element type
+    add(Ty::Int, E::BFoldl(Box::new(int(0)), Box::new(ls()), "acc".into(), "e".into(), Box::new(bang("!add", vec![id("acc"), bang("!size", vec![id("e")])]))));
+    add(Ty::Str, E::BFoldl(Box::new(s("")), Box::new(li()), "acc".into(), "e".into(), Box::new(bang("!strconcat", vec![id("acc"), bang_t("!cast", Ty::Str, vec![id("e")])]))));
     add(class_a(), bang_t("!cast", class_a(), vec![s("a0")]));
     add(Ty::Str, bang_t("!cast", Ty::Str, vec![int(1)]));
     add(Ty::Bit, bang_t("!isa", class_a(), vec![id("a0")]));
